@@ -326,7 +326,7 @@ fn check_main(args: &[String]) {
     }
     sum.run_digests.clear();
     let mut extra = json!({});
-    if property == "C08" && std::env::var("VERIF_SKIP_MIRI").is_err() && std::env::var("VERIF_NO_EVIDENCE").is_err() {
+    if property == "C08" && std::env::var("VERIF_SKIP_MIRI").is_err() {
         let (n_seeds, n_plans, reps) = match tier {
             Tier::Thorough => (128, 3, 6),
             Tier::Quick => (16, 1, 2),
